@@ -342,6 +342,8 @@ def install_market_ops():
                 q = _Fr(p0) / _Fr(tick); lvl = q.__floor__() if c["is_buy"] else q.__ceil__()
                 if _Fr(p1) != lvl * _Fr(tick):
                     raise ContractViolation(F, "C19 buy limit price rounds down by less than one tick" if c["is_buy"] else "C19 sell limit price rounds up by less than one tick", (p0, p1, tick, "exact arithmetic"))
+            if abs(p1 / tick - round(p1 / tick)) > 1e-9:
+                raise ContractViolation(F, "C19 the accepted limit price lies on the tick grid", (p0, p1, tick))
             if c["is_buy"] and not (p1 <= p0 + 1e-9 and p0 - p1 < tick + 1e-9):
                 raise ContractViolation(F, "C19 buy limit price rounds down by less than one tick", (p0, p1, tick))
             if not c["is_buy"] and not (p1 >= p0 - 1e-9 and p1 - p0 < tick + 1e-9):
